@@ -19,7 +19,7 @@ type AutoEscapeExtension struct {
 
 // Init registers the escape functionality with the given Env.
 func (e *AutoEscapeExtension) Init(env *stick.Env) error {
-	env.Visitors = append(env.Visitors, &autoEscapeVisitor{})
+	env.Visitors = append(env.Visitors, &autoEscapeVisitor{escapers: e.Escapers})
 	env.Filters["escape"] = func(ctx stick.Context, val stick.Value, args ...stick.Value) stick.Value {
 		ct := "html"
 		if len(args) > 0 {
@@ -60,7 +60,8 @@ func NewAutoEscapeExtension() *AutoEscapeExtension {
 // AutoEscapeVisitor can be used to automatically apply the "escape" filter
 // to any PrintNode.
 type autoEscapeVisitor struct {
-	stack []string
+	stack    []string
+	escapers map[string]Escaper // The escapers registered with the extension.
 }
 
 // push adds the given name on top of the stack.
@@ -115,5 +116,12 @@ func (v *autoEscapeVisitor) guessTypeFromName(name string) string {
 		// Default to html
 		return "html"
 	}
-	return name[p+1:]
+	ext := name[p+1:]
+	if _, ok := v.escapers[ext]; ok || ext == "txt" {
+		// A content type with its own escaper, or plain text, which is not escaped.
+		return ext
+	}
+	// Anything else after a dot is not a content type we know how to escape:
+	// an unknown extension, or a dot in the text of an inline template.
+	return "html"
 }
